@@ -185,6 +185,8 @@ func c16settle(sess *gocql.Session, m *c16model) {
 	}
 }
 
+var c16patience int32 // mismatches this worker process has waited out so far
+
 // c16verify compares the session's view with the model. Returns problems (key, text).
 func c16verify(sess *gocql.Session, m *c16model, pol gocql.HostSelectionPolicy) [][2]string {
 	var out [][2]string
@@ -876,7 +878,10 @@ func c16direct(c *runner.Ctx, i int) {
 			c16quiesce(sess, m)
 			probs = c16verify(sess, m, pol)
 		}
-		for w := 0; w < 25 && len(probs) > 0; w++ {
+		// (the patience is for the rare mismatch of a starved machine; a driver that is wrong in case after case is
+		// not waited for every time)
+		patient := len(probs) > 0 && atomic.AddInt32(&c16patience, 1) <= 6
+		for w := 0; w < 25 && len(probs) > 0 && patient; w++ {
 			// (a defect in the driver's picture stays; what a starved machine delays - a control connection being
 			// re-established, the refresh that follows it - arrives)
 			time.Sleep(400 * time.Millisecond)
@@ -897,7 +902,7 @@ func c16direct(c *runner.Ctx, i int) {
 					pure = false
 				}
 			}
-			if pure {
+			if pure && patient {
 				c.Add("liveness_mismatches_reannounced", 1)
 				for _, n := range cl.Snapshot() {
 					if !m.down[n] && !m.isDenied(n) {
